@@ -47,21 +47,37 @@ class ChunkParser:
             raw = self.chunk + raw
             self.chunk = b''
             # Extract following chunk data size
-            line, raw = find_http_line(raw)
-            # CRLF not received or Blank line was received.
-            if line is None or line.strip() == b'':
+            line, rest = find_http_line(raw)
+            if line is None:
+                # CRLF not received yet, wait for it.
                 self.chunk = raw
                 raw = b''
+            elif line.strip() == b'':
+                # Blank line i.e. the CRLF terminating previous
+                # chunk data, skip it and carry on.
+                raw = rest
             else:
-                self.size = int(line, 16)
-                self.state = chunkParserStates.WAITING_FOR_DATA
+                size = int(line, 16)
+                if size == 0 and len(rest) < len(CRLF) and CRLF.startswith(rest):
+                    # Last chunk is complete only along with the
+                    # CRLF terminating the body, wait for it.
+                    self.chunk = raw
+                    raw = b''
+                else:
+                    self.size = size
+                    self.state = chunkParserStates.WAITING_FOR_DATA
+                    raw = rest
         elif self.state == chunkParserStates.WAITING_FOR_DATA:
             assert self.size is not None
             remaining = self.size - len(self.chunk)
             self.chunk += raw[:remaining]
             raw = raw[remaining:]
             if len(self.chunk) == self.size:
-                raw = raw[len(CRLF):]
+                # Consume the CRLF following chunk data only if it was
+                # received, otherwise it is skipped as a blank line
+                # (possibly across segments) while waiting for next size.
+                if raw[:len(CRLF)] == CRLF:
+                    raw = raw[len(CRLF):]
                 self.body += self.chunk
                 if self.size == 0:
                     self.state = chunkParserStates.COMPLETE
